@@ -1092,6 +1092,8 @@ class RunMonitor:
 
         def loc(gp, current_point, function_logger, options, optim_state, iteration_history, refit_flag):
             mon.last_neighbors = None
+            if function_logger is mon.fl:
+                mon._check_reference_point(current_point, iteration_history)
             out = o_loc(gp, current_point, function_logger, options, optim_state, iteration_history, refit_flag)
             if function_logger is mon.fl:
                 g = out[0]
@@ -1156,6 +1158,28 @@ class RunMonitor:
             gs = None if g.s2 is None else np.asarray(g.s2).reshape(-1)
             if gs is None or gs.shape != S.reshape(-1).shape or not np.array_equal(gs, S.reshape(-1), equal_nan=True):
                 self.v("C15/gp-noise-differs-from-selected-neighbours", refit=bool(refit_flag))
+
+    @safe
+    def _check_reference_point(self, current_point, iteration_history):
+        """the local surrogate is built around the current incumbent (or, for the noisy re-estimations, around the
+        point just evaluated / a recorded iterate) - never around an arbitrary point"""
+        b = self.bads
+        if b is None:
+            return
+        cp = np.asarray(current_point, float).ravel()
+        self.c("C15.reference_points_checked")
+        cands = [np.asarray(b.u, float).ravel()]
+        if hasattr(b, "u_best"):
+            cands.append(np.asarray(b.u_best, float).ravel())
+        if self.calls and self.calls[-1].get("u") is not None:
+            cands.append(self.calls[-1]["u"])
+        if any(c.shape == cp.shape and np.array_equal(c, cp) for c in cands):
+            return
+        us = iteration_history.get("u")
+        if us is not None and any(x is not None and np.array_equal(np.asarray(x, float).ravel(), cp) for x in us):
+            self.c("C15.reference_point_is_history_iterate")
+            return
+        self.v("C15/local-fit-reference-point-is-not-incumbent-or-recorded-iterate", reference=cp, incumbent=cands[0])
 
     @safe
     def _check_metric_is_gp_lengthscale(self, g):
